@@ -761,16 +761,21 @@ int process_patch(const Options& options)
             // NOTE: we check for file size for the degenerate case that the file is a removal, but has nothing left.
             if (options.remove_empty_files == Options::OptionalBool::Yes && patch.operation == Operation::Delete) {
                 if (tmp_out_file.size() == 0) {
-                    // NOTE: only a patch which was applied removes the file. If it was skipped or failed to apply then
-                    //       there was nothing in the file in the first place (if it exists at all), and so it stays.
+                    // NOTE: only a patch which was applied removes the file. If it was skipped or some of it failed to apply
+                    //       the result is written as that of any other patch (it may be what is left by the hunks which did
+                    //       apply), unless there is no file at all: then there is nothing to be written either.
                     const bool was_applied = !result.was_skipped && result.failed_hunks == 0;
-                    if (!options.dry_run && was_applied) {
-                        if (should_backup)
-                            backup.make_backup_for(output_file);
-                        if (filesystem::exists(output_file))
-                            remove_file_and_empty_parent_folders(output_file);
+                    if (was_applied) {
+                        if (!options.dry_run) {
+                            if (should_backup)
+                                backup.make_backup_for(output_file);
+                            if (filesystem::exists(output_file))
+                                remove_file_and_empty_parent_folders(output_file);
+                        }
+                        write_to_file = false;
+                    } else if (!filesystem::exists(output_file)) {
+                        write_to_file = false;
                     }
-                    write_to_file = false;
                 } else if (patch.new_file_path == "/dev/null") {
                     // NOTE: a removal which was only inferred from a hunk that adds no lines at line 0 (such as
                     //       the removal of the first line of a file in a diff without any context) is no removal.
